@@ -99,6 +99,24 @@ impl<'ast> Visit<'ast> for BodyVisitor {
         }));
         visit::visit_expr_break(self, e);
     }
+    fn visit_expr_await(&mut self, e: &'ast syn::ExprAwait) {
+        self.nodes.push(json!({"kind": "await", "range": rng(e.span())}));
+        if let syn::Expr::MethodCall(mc) = &*e.base {
+            self.nodes.push(json!({
+                "kind": "await_call", "range": rng(e.span()), "base": rng(e.base.span()),
+                "receiver": rng(mc.receiver.span()), "method": mc.method.to_string(),
+            }));
+        }
+        if let syn::Expr::Call(c) = &*e.base {
+            if let syn::Expr::Path(pa) = &*c.func {
+                let name = pa.path.segments.iter().map(|s| s.ident.to_string()).collect::<Vec<_>>().join("::");
+                self.nodes.push(json!({
+                    "kind": "await_fn", "range": rng(e.span()), "base": rng(e.base.span()), "func": name,
+                }));
+            }
+        }
+        visit::visit_expr_await(self, e);
+    }
     fn visit_expr_method_call(&mut self, e: &'ast syn::ExprMethodCall) {
         if e.method == "or_default" && e.args.is_empty() {
             if let syn::Expr::MethodCall(inner) = &*e.receiver {
@@ -208,10 +226,6 @@ impl<'ast> Visit<'ast> for BodyVisitor {
             })).collect::<Vec<_>>(),
             "in_closure": self.closure_depth > 0}));
         visit::visit_expr_match(self, e);
-    }
-    fn visit_expr_await(&mut self, e: &'ast syn::ExprAwait) {
-        self.nodes.push(json!({"kind": "await", "range": rng(e.span())}));
-        visit::visit_expr_await(self, e);
     }
     fn visit_block(&mut self, b: &'ast syn::Block) {
         let last = b.stmts.last();
